@@ -35,7 +35,7 @@ func (c23) Describe() engine.Info {
 			"Oracle: bytes delivered to the writer == sequence of SB writes (exactly once, in order, nothing else); nothing delivered and no crash with a nil writer; SB and SC read FF. Signature = (class, what preceded the SB write: SC value class / DMA running / interrupt dispatched / LCD on)." +
 			" Read-modify-write instructions on SB count as writes; if a program leaves its path the SB stores actually executed are the oracle; class pair: two instances with slow writers interleaved by the scheduler.",
 		Assumptions:    []string{"writer errors make the emulator panic by design; the statement is silent on them and they are not injected", "ROM SB writes are recognised for the store forms LDH (n),A / LD (C),A / LD (nn),A / LD (HL),r / LD (HL),n / LD (rr),A / LD (HL+-),A"},
-		RequiredProbes: []string{"sb_writes", "sb_write_after_sc_external_clock", "sb_write_during_dma", "nil_writer_runs", "sb_sc_reads", "rom_sb_writes", "blocked_in_writer_while_other_instance_runs"},
+		RequiredProbes: []string{"sb_writes", "sb_write_after_sc_external_clock", "sb_write_during_dma", "nil_writer_runs", "sb_sc_reads", "rom_sb_writes", "blocked_in_writer_while_other_instance_runs", "program_continued_after_cleanup"},
 		RealComponents: realComponents, StubComponents: stubComponents,
 	}
 }
@@ -65,6 +65,13 @@ func (c23) Generate(r *engine.Rand, index int, tier string) *engine.Scenario {
 	}
 	sc.Class = "program"
 	sc.Serial = index%5 != 4
+	if index%20 == 3 {
+		// the instance goes on after its outputs were released (Cleanup, as Run does when it returns; no
+		// audio or video attached): the configured writer still gets every byte
+		sc.Class = "program-after-cleanup"
+		sc.Serial = true
+		sc.SetP("cleanup_at", int64(r.Range(20, 400)))
+	}
 	code, expect, reads := c23Program(r)
 	sc.SetStr("prog", engine.Hex(code))
 	sc.SetStr("expect", engine.Hex(expect))
@@ -266,6 +273,7 @@ func (c23) Execute(sc *engine.Scenario) *engine.Result {
 	// the SB stores the CPU really executes (decoded at instruction boundaries), whatever path the
 	// program takes; also tracks what precedes SB writes for coverage
 	var executed []byte
+	cleaned := false
 	m.OnCycle = func() {
 		if !m.CPU.VerifAtBoundary() {
 			return
@@ -282,6 +290,12 @@ func (c23) Execute(sc *engine.Scenario) *engine.Result {
 			if m.Read(0xff40)&0x80 != 0 {
 				res.Sig("program/sb/lcd-on")
 			}
+		}
+		if ca := uint64(sc.P("cleanup_at", 0)); ca != 0 && m.N >= ca && !cleaned {
+			cleaned = true
+			m.GB.Cleanup()
+			res.Fault("cleanup_mid_run")
+			res.Probe("program_continued_after_cleanup")
 		}
 		if m.CPU.VerifGetRegs().PC == end && m.N > 16 {
 			m.Stop()
